@@ -335,6 +335,20 @@ func H10_faults() {
 	})
 	vAssert(!crashed, "C10.no-crash")
 	vAssert(mwInv(s), "C10.table-invariant-preserved")
+	if op == 6 && err != nil {
+		// a refused registration leaves nothing behind: the candidate is
+		// neither in the table nor in a later listing
+		vAssert(!mwPeek || mwMemLen(s) == 1, "C10.failed-registration-registers-nothing")
+		up.failAt = -1
+		l, lerr := s.List()
+		n := 0
+		for _, k := range l {
+			if mwCertByBlob(k.Blob) != nil && string(k.Blob) != string(mwCertMarshal(mem)) && string(k.Blob) != string(mwCertMarshal(upc)) {
+				n++
+			}
+		}
+		vAssert(lerr != nil || n == 0, "C10.failed-registration-registers-nothing")
+	}
 	if up.failed {
 		// the failing call was reached.  It surfaces as an error unless it was
 		// the tolerated removal of a certificate also held in memory.
